@@ -369,7 +369,7 @@ class sumtensor:
         """
         result = self.parts[0].mttkrp(U, n)
         for part in self.parts[1:]:
-            result += part.mttkrp(U, n)
+            result = result + part.mttkrp(U, n)
         return result
 
     def ttv(
